@@ -266,13 +266,25 @@ def needMakeMapping (i : Info) (m : Mapping) : Bool :=
   else if i.hasBack ∧ (m.source = .backing ∨ m.source = .unallocated) then false
   else true
 
+/-- `release_zero_prealloc(old)`: the preallocated cluster of a replaced
+    zero-flagged entry is released -/
+def releaseZeroPrealloc (old : E64) : M Unit := fun d =>
+  if ¬ L2.isCompressed old ∧ L2.isZero old then
+    match L2.allocation d.info.cb old with
+    | some (o, n) => freeClusters o n true d
+    | none => (d, .ok ())
+  else (d, .ok ())
+
 /-- `alloc_and_map_cluster(split, l2_table)`; the old allocation returned by
     `map_cluster` is dropped by the caller (`let _ =`), as in the code. -/
 def allocAndMap (off : Nat) : M Unit := do
   match ← allocateClusters 1 with
   | some (h, _) =>
     markNewData h
+    let d ← M.get
+    let old := d.l2Entry off
     M.modify fun d => (d.setL2 off (L2.mapClusterEntry h))
+    releaseZeroPrealloc old
   | none => M.fail .nospace
 
 /-- `make_single_write_mapping(virt_off)` -/
@@ -304,10 +316,14 @@ def mapRun (cstart ccnt stop : Nat) : Nat → Nat → Nat → List E64 → M (Li
       let h := cstart + idx * i.clusterSize
       let d1 := { d with newData := (h / i.clusterSize) :: d.newData }
       let d2 := d1.setL2 this (L2.mapClusterEntry h)
-      let acc' := d2.l2Entry this :: acc
-      let idx' := idx + 1
-      if idx' ≥ ccnt then (d2, .ok (acc'.reverse, this + i.clusterSize, idx'))
-      else mapRun cstart ccnt stop fuel (this + i.clusterSize) idx' acc' d2
+      match releaseZeroPrealloc e d2 with
+      | (d3, .ok ()) =>
+        let acc' := d3.l2Entry this :: acc
+        let idx' := idx + 1
+        if idx' ≥ ccnt then (d3, .ok (acc'.reverse, this + i.clusterSize, idx'))
+        else mapRun cstart ccnt stop fuel (this + i.clusterSize) idx' acc' d3
+      | (d3, .err x) => (d3, .err x)
+      | (d3, .panic p) => (d3, .panic p)
     else
       -- `if idx >= cluster_cnt { break }` is evaluated after every iteration
       if idx ≥ ccnt then (d, .ok ((e :: acc).reverse, this + i.clusterSize, idx))
@@ -578,7 +594,11 @@ def discardOne (g : Nat) : M Unit := fun d =>
   | none => (d, .ok ())
   | some (host, cnt) =>
     -- with a backing file the cleared entry keeps the zero flag so that the
-    -- cluster reads as zeros instead of exposing backing data
+    -- cluster reads as zeros instead of exposing backing data; version 2 has
+    -- no zero flag: the cluster stays allocated and only its content is zeroed
+    if i.hasBack ∧ d.version < 3 then
+      ({ d with data := d.data.setRange (host / 512) (cnt * d.spc) (fun _ => 0) }, .ok ())
+    else
     let cleared : E64 := if i.hasBack then 1#64 else 0#64
     let d1 := { d.setL2 g cleared with needFlush := true }
     match freeClusters host cnt true d1 with
